@@ -131,6 +131,12 @@ for _d in ("up", "down"):
                   "time-like NNLO matching conditions are unknown and set to zero (documented in TimeLike.rst): dependence on the matching ratio at O(a_s^2) (exponent 2.0 < 3); not repairable"))
 
 
+# entries of the audit round (found by the extended checks; texts written by the implementers of the extensions)
+_R3 = json.loads((pathlib.Path(__file__).parent / "findings_round3.json").read_text())
+FIXED += [(e["property"], e["signature"], e["phrase"], e["what"]) for e in _R3["fixed"]]
+KNOWN += [(e["property"], e["signature"], e["what"]) for e in _R3["known"]]
+
+
 def commit_of(phrase):
     out = subprocess.run(
         ["git", "-C", "/repo", "log", "--format=%h", "--fixed-strings", "--grep", phrase, "-1"],
